@@ -71,6 +71,28 @@ Definition extract_tx_cbor (data : bytes) (nb nw : nat) : option (option (list b
         end
   end.
 
+(* ---- standalone transactions: New<Era>TransactionFromCbor ------------------
+   cbor.Decode(data, &tx) hands <Era>Transaction.UnmarshalCBOR the bytes of
+   the first item; UnmarshalCBOR decodes []RawMessage, checks the number of
+   components (`exact` = true: len != n is an error, as Alonzo..Conway with
+   n = 4; false: len < n is an error, as Shelley..Mary with n = 3), decodes
+   txArray[0] into the body and txArray[1] into the witness set (each of
+   which stores the bytes it is handed) and finally SetCbor(cborData).
+   Result: stored transaction / body / witness-set bytes (the era-specific
+   field decoding is abstracted: this is the accept case). *)
+Definition decode_tx (exact : bool) (n : nat) (data : bytes) : option (bytes * bytes * bytes) :=
+  match parse_full data with
+  | Ok _ rest =>
+      let item := firstn (consumed data rest) data in
+      match dec_raw_list item with
+      | Some (b :: w :: r, _) =>
+          let len := S (S (length r)) in
+          if (if exact then Nat.eqb len n else Nat.leb n len) then Some (item, b, w) else None
+      | _ => None
+      end
+  | _ => None
+  end.
+
 (* ---- re-serialisation table (C01/Gen.v is generated from the Go source) ---- *)
 (* wire types known to re-encode because they have no MarshalCBOR method at
    all (proposed known finding "reencode-no-marshalcbor:" + type) *)
@@ -112,3 +134,14 @@ Definition obs_eqb (a b : option (option (list bytes * list bytes * option bytes
 Definition check_case (c : case) : bool :=
   let '(data, nb, nw, obs) := c in obs_eqb (extract_tx_cbor data (N.to_nat nb) (N.to_nat nw)) obs.
 Definition mismatches := failing check_case.
+
+(* standalone transactions: exact, n, input, observed stored (tx, body, witness set) bytes *)
+Definition txcase := (bool * N * bytes * option (bytes * bytes * bytes))%type.
+Definition check_txcase (c : txcase) : bool :=
+  let '(exact, n, data, obs) := c in
+  match decode_tx exact (N.to_nat n) data, obs with
+  | Some (t, b, w), Some (t', b', w') => bytes_eqb t t' && bytes_eqb b b' && bytes_eqb w w'
+  | None, None => true
+  | _, _ => false
+  end.
+Definition tx_mismatches := failing check_txcase.
